@@ -166,6 +166,8 @@ package analysis
 //@   props C06 C07 C11 C20 C05 C14
 //@   loop range:node.ExpList exits-early-only-if [every-iterator-expression-is-walked] false
 //@   at call cgExp#0 before assert[iterator-expression-is-walked] arg1 == oneExp
+//@   loop range:node.ExpList invariant hits("cgExp#0") == rangeindex + 1 && rangeindex + 1 <= len(node.ExpList)
+//@   ensures[all-iterator-expressions-are-walked] hits("cgExp#0") == len(node.ExpList)
 //@   ensures[body-is-walked] hits("cgBlock#0") == 1
 //@ end
 //@ func (*Analysis).cgLocalFuncDefStat
